@@ -31,6 +31,12 @@ def feasible(p):
     if any((e[1] == ('c', 1, 'bool') and e[2] is False) or (e[1] == ('c', 0, 'bool') and e[2] is True) for e in p.conds()) or \
             (p.end[0] == 'diverge' and any((c[1] or '').endswith('assert_failed') for c in p.calls())):
         return False
+    # a comparison of a value with itself has one outcome (`let n = if utf8 { bytes.len() } else { validator(bytes) }; if n == bytes.len()`)
+    for e in p.conds():
+        ce = e[1]
+        if ce[0] == 'bin' and ce[1] in ('Eq', 'Ne', 'Lt', 'Le', 'Gt', 'Ge') and isinstance(e[2], bool) and ce[2] == ce[3] and ce[2][0] in ('len', 'c', 'loc'):
+            if e[2] != (ce[1] in ('Eq', 'Le', 'Ge')):
+                return False
     # identity comparisons of one encoding reference with the Encoding statics are consistent along a path: the same comparison
     # cannot come out differently twice (a helper that re-asks what its caller has already decided), and at most one can be true
     seen = {}
@@ -288,7 +294,7 @@ def result_kind(f, p, scrut, adt_name='CoderResult'):
 def loop_roles(b, H, callee):
     """(position local, paths): the loop-carried usize local that slices the input for the conversion call (`&bytes[total_read..]`),
     found from the call itself, not by its name"""
-    paths = [p for p in region_paths(b, H) if feasible(p)]
+    paths = [p for p in region_paths(b, H, env0=arg_aliases(b)) if feasible(p)]
     TRl = None
     for p in paths:
         dc = [e for e in p.calls() if e[1] == callee]
@@ -453,7 +459,7 @@ def encode_fn(rep, f, c):
         TR = ('init', TRl)
         ok = TRl is not None
         kinds = set()
-        lpaths = [p for p in region_paths(b, heads[0]) if feasible(p) and p.end[0] != 'diverge']
+        lpaths = [p for p in region_paths(b, heads[0], env0=arg_aliases(b)) if feasible(p) and p.end[0] != 'diverge']
         # the unmappable flag: the bool that some iteration ORs the call's had_unmappables into
         TEl = None
         for p in lpaths:
